@@ -5,8 +5,12 @@ Streams
   M2  fault-injecting histories (strict-mode ParseError, exception from the
       input source, cancellation between tokens, abandoned serializer
       generator, strict serializer error, cold restart of process-wide caches)
+  M2sweep  the abort point swept over every token / read index of a setter
+  M1aged   M1 histories on objects with a long earlier life (cumulative state)
   M3  2-3 simulated caller threads with private objects under the baton
       scheduler (sim/baton.py)
+  M4  the first library calls of a bare interpreter raced by threads, lazily
+      imported modules half-initialised at pre-emption (sim/firstcall.py)
 
 Reference model: "a brand-new object" - after every op the outcome of the
 reused object must equal the outcome of fresh objects executing the same op;
@@ -697,6 +701,81 @@ def gen_history(rng, stream):
     return case
 
 
+# ---- aged objects: the history above starts from brand-new objects; a long-lived parser in a server has thousands of
+# calls and hundreds of thousands of tokens and errors behind it.  An "age" is a legitimate earlier life of one object:
+# N calls on one ageing document (results dropped), after which the ordinary history runs and is compared as always.
+AGE_DOCS = {
+    # name: (atoms of one repetition, prefix) - errors / tokens / distinct names / restarts accumulate per call
+    "errors": (["</x>"], ["<body>"]),
+    "errors_table": (["x", "</q>"], ["<table>"]),
+    "charref_errors": (["&#0;", "&nosuch;", "\x00"], []),
+    "tokens": (["<p>x</p>"], ["<!DOCTYPE html><html><head><title>t</title></head><body>"]),
+    "attrs": (["<a b=c d=e>y</a>"], ["<!DOCTYPE html>"]),
+    "names": (None, []),                 # a different run of never-seen tag names per call
+    "formatting": (["<b><i>x</b></i>"], []),
+    "bytes_restart": (None, []),         # bytes with a late <meta>: one restart per call
+}
+
+
+def _age_text(age, call_no):
+    kind, k = age["doc"], age["k"]
+    if kind == "names":
+        base = call_no * k
+        return "".join("<n%d>" % (base + j) for j in range(k))
+    rep, prefix = AGE_DOCS[kind]
+    return "".join(prefix) + "".join(rep) * k
+
+
+def apply_age(obj, cfg, age):
+    """The earlier life of a long-lived object.  Only public calls; outcomes are not looked at."""
+    n = age["n"]
+    if cfg["type"] == "serializer":
+        walker = html5lib.getTreeWalker("etree")
+        tree = html5lib.parse("<p a=b>x<br><!--c-->" * age["k"])
+        for _ in range(n):
+            try:
+                for _piece in obj.serialize(walker(tree)):
+                    pass
+            except Exception:
+                pass
+        return
+    for c in range(n):
+        try:
+            if age["doc"] == "bytes_restart":
+                obj.parse(b"<title>x</title>" + b"y" * 1100 + b"<meta charset=koi8-r><p>\xc1" + b"</z>" * age["k"])
+            elif age.get("frag") and c % 2:
+                obj.parseFragment(_age_text(age, c), container="div")
+            else:
+                obj.parse(_age_text(age, c))
+        except Exception:
+            pass
+
+
+def gen_age(rng, cfg):
+    if cfg["type"] == "serializer":
+        return {"doc": "ser", "k": rng.choice([1, 20]), "n": rng.choice([10, 100, 1000])}
+    kinds = ["tokens", "attrs", "names", "formatting"] if cfg["strict"] else sorted(AGE_DOCS)
+    kind = rng.choice(kinds) if rng.random() < 0.6 or cfg["strict"] else "errors"
+    k = rng.choice([20, 400, 1500])
+    total = int(2000 * (125 ** rng.random()))          # 2 000 .. 250 000 repetitions over the object's earlier life
+    age = {"doc": kind, "k": k, "n": max(2, min(3000, total // k))}
+    if rng.random() < 0.3:
+        age["frag"] = True
+    return age
+
+
+def gen_aged_history(rng):
+    case = gen_history(rng, "M1")
+    case["stream"] = "M1aged"
+    case.pop("pristine", None)
+    objs = [dict(o) for o in case["objs"]]
+    used = sorted({op["obj"] for op in case["ops"] if "obj" in op}) or [0]
+    for oi in rng.sample(used, 1 if rng.random() < 0.7 else min(2, len(used))):
+        objs[oi]["age"] = gen_age(rng, objs[oi])
+    case["objs"] = objs
+    return case
+
+
 def gen_abort_sweep(rng):
     """Systematic sweep of the abort point: one parser configuration, one
     short state-setting document, and for EVERY token index k and EVERY read
@@ -740,8 +819,13 @@ def gen_unit(rng, stream="M1"):
     if stream == "M3":
         from . import baton
         return [baton.gen_case(rng)]
+    if stream == "M4":
+        from . import firstcall
+        return [firstcall.gen_case(rng)]
     if stream == "M2sweep":
         return gen_abort_sweep(rng)
+    if stream == "M1aged":
+        return [gen_aged_history(rng)]
     return [gen_history(rng, stream)]
 
 
@@ -785,6 +869,9 @@ def execute(case):
     if case.get("stream") == "M3":
         from . import baton
         return baton.execute(case)
+    if case.get("stream") == "M4":
+        from . import firstcall
+        return firstcall.execute(case)
     probes.install()
     probes.reset()
     stats = {"faults": {}, "probes": {}, "steps": 0, "reach": [], "nontrivial": False, "fault_free": True}
@@ -798,13 +885,25 @@ def execute(case):
     pristine_all = bool(case.get("pristine")) or env.digest64(json.dumps(case, sort_keys=True)) % 8 == 0
     after_cold = False
     uses = [0] * len(objs)
+    aged = []
+    for oi, cfg in enumerate(case["objs"]):
+        if cfg.get("age"):
+            saved = dict(P)
+            apply_age(objs[oi], cfg, cfg["age"])
+            P.clear()
+            P.update(saved)
+            P["aged_object"] += 1
+            if cfg["age"]["n"] * cfg["age"]["k"] >= 100000:
+                P["aged_object_100k"] += 1
+            f["aged_object"] = f.get("aged_object", 0) + 1
+            aged.append((oi, cfg["age"]["doc"], cfg["age"]["n"], cfg["age"]["k"]))
     last_sig = [None] * len(objs)
     last_kind = [None] * len(objs)
     returned = []   # (op index, builder, tree object, canonical form at return time)
     handed_out_errors = []   # (op index, the parser.errors list object as handed out, its canonical form then)
     handed_out_ser_errors = []   # the same for HTMLSerializer.errors
     reach = set()
-    trace = []
+    trace = [("aged",) + a for a in aged]
     failure = None
     for i, op in enumerate(case["ops"]):
         kind = op["op"]
@@ -1053,6 +1152,10 @@ def shrinks(case):
         from . import baton
         yield from baton.shrinks(case)
         return
+    if case.get("stream") == "M4":
+        from . import firstcall
+        yield from firstcall.shrinks(case)
+        return
     ops = case["ops"]
     n = len(ops)
     size = n // 2
@@ -1073,6 +1176,15 @@ def shrinks(case):
                    ops=[dict(op, obj=remap[op["obj"]]) if "obj" in op else op for op in ops])
     # simpler object configurations
     for j, cfg in enumerate(case["objs"]):
+        age = cfg.get("age")
+        if age:
+            rest = {k: v for k, v in cfg.items() if k != "age"}
+            yield dict(case, objs=case["objs"][:j] + [rest] + case["objs"][j + 1:])
+            for n2 in (age["n"] // 2, age["n"] - 1):
+                if n2 >= 1:
+                    yield dict(case, objs=case["objs"][:j] + [dict(cfg, age=dict(age, n=n2))] + case["objs"][j + 1:])
+            if age.get("frag"):
+                yield dict(case, objs=case["objs"][:j] + [dict(cfg, age={k: v for k, v in age.items() if k != "frag"})] + case["objs"][j + 1:])
         if cfg["type"] == "parser":
             for k, v in (("builder", "etree"), ("ns", True)):
                 if cfg[k] != v:
@@ -1118,6 +1230,9 @@ def describe(case):
     if case.get("stream") == "M3":
         from . import baton
         return baton.describe(case)
+    if case.get("stream") == "M4":
+        from . import firstcall
+        return firstcall.describe(case)
 
     def d(op):
         o = {k: v for k, v in op.items() if k not in ("doc", "hex")}
@@ -1133,8 +1248,8 @@ def describe(case):
 
 def plan(tier):
     if tier == "thorough":
-        return [("M1", 200000), ("M2", 300000), ("M2sweep", 10000), ("M3", 30000)], 1800
-    return [("M1", 6000), ("M2", 9000), ("M2sweep", 500), ("M3", 1200)], 300
+        return [("M1", 200000), ("M2", 300000), ("M2sweep", 10000), ("M1aged", 4000), ("M4", 20000), ("M3", 30000)], 1800
+    return [("M1", 6000), ("M2", 9000), ("M2sweep", 500), ("M1aged", 128), ("M4", 400), ("M3", 1200)], 300
 
 
 RULE = ("one run = one history of 2..12 operations (parse / parseFragment / parse of bytes with restart / serialize / walk / "
@@ -1142,10 +1257,15 @@ RULE = ("one run = one history of 2..12 operations (parse / parseFragment / pars
         "serializer generator, strict SerializeError) on 1..5 long-lived objects, each op compared with brand-new objects, plus the "
         "end-of-history invariant that no earlier result changed; M3: 2-3 simulated caller threads with private objects under the "
         "baton scheduler; non-trivial = some object used at least twice (M1/M2) or at least one pre-emption inside a hot function "
-        "(M3); distinct = distinct SHA-1 of the explicit case")
+        "(M3); M1aged: the same histories on objects with an earlier life of up to 250 000 repetitions of an ageing document "
+        "(errors, tokens, tag names, restarts accumulated over up to 3 000 calls); M4: the first library calls of a bare "
+        "interpreter (only `import html5lib` executed) raced by 2-3 threads, pre-emption also while a lazily imported module is "
+        "half-initialised, the per-module import lock intercepted; non-trivial (M4) = at least one pre-emption while a module "
+        "body is on a thread's stack; distinct = distinct SHA-1 of the explicit case")
 EXPECTED_PROBES = ["pristine_reference_used", "cold_miss_under_contention", "hot_preemptions", "abort_with_table_text_pending", "abort_inside_rawtext", "abort_during_sniffing",
                    "abort_in_second_pass_after_restart", "handler_cache_full", "fragment_document_alternation",
-                   "restart_fired", "abort_with_drop_newline_armed"]
+                   "restart_fired", "abort_with_drop_newline_armed", "aged_object_100k", "race_with_half_imported_module",
+                   "import_lock_contention"]
 REACH_NOTE = ("distinct (end-state signature of the previous call on the object [phase, framesetOK, compatMode, table text pending, "
               "drop-newline armed, formPointer, active formatting, innerHTML, depth bucket], how it ended, next op kind)")
 REAL_VS_STUB = {
@@ -1154,9 +1274,14 @@ REAL_VS_STUB = {
              "a second, pristine CPython interpreter under another PYTHONHASHSEED for the sampled reference"],
     "stub": ["SimSource readers with injected read failure", "tokenizer subclass raising SimCancelled before token k (bound through "
              "html5parser's module global for the duration of the call)", "cache purge standing in for a process restart",
-             "baton scheduler choosing which thread runs (sys.settrace pre-emption points)"],
+             "baton scheduler choosing which thread runs (sys.settrace pre-emption points)",
+             "M4: importlib's _ModuleLock.acquire replaced (in the forked child only) by a version that yields to the scheduler "
+             "instead of blocking in C; same ownership, re-entrancy and deadlock-detection logic"],
 }
 ASSUMPTIONS = [
     "sampling, not proof", "after an abort injected from outside (read error, cancellation) only the propagated exception is compared, "
     "not attributes of the aborted parser", "one parser shared by several threads is outside the property's quantifier and is not simulated",
+    "M4 pre-empts at line events of html5lib / xml / encodings / webencodings frames only; frames of the import system itself run "
+    "atomically (they hold C-level locks for a few instructions), so races inside importlib are not explored",
+    "thresholds on cumulative per-object counters above 250 000 repetitions (M1aged) are out of reach",
 ]
